@@ -421,12 +421,13 @@ def leaf_spec(draw, dspec, kinds=None):
         return {"t": "roi", "x": x, "y": y, "roi": draw(roi2d_spec(kinds=("rect", "circ", "ellipse", "poly", "xrange", "yrange"), rotated=False))}
     if k == "roind":          # the n-attribute form of a region selection
         return {"t": "roind", "atts": [draw(st.sampled_from(nums)), draw(st.sampled_from(nums))],
-                "roi": draw(roi2d_spec(kinds=("rect", "circ", "poly"), rotated=False))}
+                "roi": draw(roi2d_spec(kinds=("rect", "circ", "poly"), rotated=False)), "pre": draw(st.booleans())}
     if k == "roi3d":          # three attributes projected to the screen by a matrix, region in screen space
         sh = draw(st.sampled_from([0.0, 0.5, -1.0]))
         return {"t": "roi3d", "atts": [draw(st.sampled_from(nums)), draw(st.sampled_from(nums)), draw(st.sampled_from(nums))],
                 "roi": draw(roi2d_spec(kinds=("rect", "circ"), rotated=False)),
-                "matrix": [[1.0, 0.0, sh, 0.0], [0.0, 1.0, 0.0, 0.0], [0.0, 0.0, 1.0, 0.0], [0.0, 0.0, 0.0, 1.0]]}
+                "matrix": [[1.0, 0.0, sh, 0.0], [0.0, 1.0, 0.0, 0.0], [0.0, 0.0, 1.0, 0.0], [0.0, 0.0, 0.0, 1.0]],
+                "pre": draw(st.booleans())}
     if k == "roipre":         # region selection behind a coordinate pre-transform (degrees -> radians on x and/or y)
         return {"t": "roipre", "x": draw(st.sampled_from(nums)), "y": draw(st.sampled_from(nums)),
                 "roi": draw(roi2d_spec(kinds=("rect", "circ"), rotated=False)), "coords": draw(st.sampled_from([["x"], ["y"], ["x", "y"]]))}
@@ -528,6 +529,15 @@ def leaf_kind(s):
     return s["t"]
 
 
+def pre3(x, y, z):
+    """a pre-transform for 3-attribute region selections"""
+    return x - 1.0, 2.0 * y, z
+
+
+def pre2(x, y):
+    return x - 1.0, 2.0 * y
+
+
 def build_state(s, data, how="ctor"):
     """Spec -> SubsetState on `data`.  how: 'ctor' explicit constructors, 'op' python operators."""
     from glue.core import subset as S
@@ -546,10 +556,11 @@ def build_state(s, data, how="ctor"):
     if t == "roi":
         return S.RoiSubsetState(ref_cid(data, s["x"]), ref_cid(data, s["y"]), build_roi(s["roi"]))
     if t == "roind":
-        return S.RoiSubsetStateNd([ref_cid(data, a) for a in s["atts"]], build_roi(s["roi"]))
+        return S.RoiSubsetStateNd([ref_cid(data, a) for a in s["atts"]], build_roi(s["roi"]), pretransform=pre2 if s.get("pre") else None)
     if t == "roi3d":
         from glue.core.roi import Projected3dROI
-        return S.RoiSubsetState3d(*[ref_cid(data, a) for a in s["atts"]], Projected3dROI(build_roi(s["roi"]), np.array(s["matrix"])))
+        return S.RoiSubsetState3d(*[ref_cid(data, a) for a in s["atts"]], Projected3dROI(build_roi(s["roi"]), np.array(s["matrix"])),
+                                  pretransform=pre3 if s.get("pre") else None)
     if t == "roipre":
         from glue.core.roi_pretransforms import RadianTransform
         return S.RoiSubsetState(ref_cid(data, s["x"]), ref_cid(data, s["y"]), build_roi(s["roi"]), pretransform=RadianTransform(coords=list(s["coords"])))
